@@ -1,25 +1,26 @@
 import Revm.Proofs.Blob
 /-! C32 — blob fee functions match the EIP-4844 integer definitions.
 
-`Model.Blob` follows `utilities.rs` (`wrap = true`: release profile, `+ *` wrap; `wrap = false`:
-debug profile, they panic). `Spec.Blob` is the EIP-4844 Python over unbounded integers.
+`Model.Blob` follows the **repaired** `utilities.rs` (commit "fix: blob fee helpers wrapped silently
+on large excess blob gas": U256 intermediates with `checked_add` / `checked_mul`, saturation to
+`u128::MAX` / `u64::MAX`). `Spec.Blob` is the EIP-4844 Python over unbounded integers.
 
-The property as written is **false of the code**: `fake_exponential` computes `accum * numerator` in
-`u128` and `calc_excess_blob_gas` computes `excess + used` in `u64` without a check, so outside the
-domains below the release build silently returns a wrapped value (the debug build panics) although
-the true value fits. The theorems state the exact domains, the counterexample theorems give the
-smallest witnesses, and `full_statement_false` refutes the unrestricted statement. -/
+The property now holds at full strength, for all `u64` arguments and with no intermediate-overflow
+hypothesis: the price is the EIP value clamped to `u128` (so it is the EIP value whenever that fits
+in 128 bits, and `u128::MAX` — never a wrapped residue — otherwise), and the excess is
+`max(0, a+b−t)` clamped to `u64`. The witnesses of the former finding are kept as regression
+theorems (and in `corpus/C32`). -/
 namespace Revm.Props.C32
 open Revm Revm.Model.Blob Revm.Proofs.Blob
 
-/-- the property as written, for the price function (release profile) -/
+/-- the property as written, for the price function -/
 def FullStatementFakeExp : Prop :=
   ∀ f n d r, f < U64 → n < U64 → d < U64 → d ≠ 0 → Spec.Blob.FakeExp f n d r → r < 2^128 →
-    ∃ fuel, fakeExponential true fuel f n d = some (.ok r)
-/-- the property as written, for the excess function (release profile) -/
+    ∃ fuel, fakeExponential fuel f n d = some (.ok r)
+/-- the property as written, for the excess function (result clamped to the `u64` return type) -/
 def FullStatementExcess : Prop :=
   ∀ a b t, a < U64 → b < U64 → t < U64 →
-    ∃ v, calcExcessBlobGas true a b t = .ok v ∧ (v : Int) = Spec.Blob.excessBlobGas a b t
+    (calcExcessBlobGas a b t : Int) = min (max 0 ((a : Int) + b - t)) (2^64 - 1)
 
 /-! ## the specification is a total function -/
 
@@ -29,162 +30,145 @@ theorem fake_exp_spec_total (f n d : Nat) :
   obtain ⟨r, hr⟩ := fakeExp_total f n d
   exact ⟨r, hr, fun r' h' => fakeExp_unique f n d r' r h' hr⟩
 
-/-! ## price: exact on the no-intermediate-overflow domain -/
+/-! ## price -/
 
-/-- for every factor, numerator and non-zero denominator: if no intermediate value of the unbounded
-computation reaches 2^128, then `fake_exponential` returns the EIP value (in the release and in the
-debug profile, for every sufficiently large fuel) and that value is below 2^128 -/
-theorem fake_exp_eq_partial (f n d r : Nat) (hd : d ≠ 0) (hr : Spec.Blob.FakeExp f n d r)
-    (hfit : Spec.Blob.NoIntermediateOverflow f n d) :
-    (∃ fuel0, ∀ fuel, fuel0 ≤ fuel →
-      fakeExponential true fuel f n d = some (.ok r) ∧ fakeExponential false fuel f n d = some (.ok r)) := by
-  obtain ⟨a, ha⟩ := fake_exp_eq true f n d r hd hr hfit
-  obtain ⟨b, hb⟩ := fake_exp_eq false f n d r hd hr hfit
-  exact ⟨a + b, fun fuel h => ⟨ha fuel (by omega), hb fuel (by omega)⟩⟩
+/-- for **all** `u64` factor, numerator and non-zero denominator: `fake_exponential` returns
+`min r (2^128 − 1)` where `r` is the EIP value over unbounded integers (for every sufficiently large
+fuel; the answer does not depend on the fuel, `fake_exp_fuel_independent`) -/
+theorem fake_exp_eq (f n d r : Nat) (hf : f < U64) (hn : n < U64) (hd : d < U64) (hd0 : d ≠ 0)
+    (hr : Spec.Blob.FakeExp f n d r) :
+    ∃ fuel0, ∀ fuel, fuel0 ≤ fuel → fakeExponential fuel f n d = some (.ok (min r (2^128 - 1))) :=
+  Proofs.Blob.fake_exp_eq f n d r hf hn hd hd0 hr
 
-example : Spec.Blob.FakeExp 1 192204552 3338477 10079293834132079738693097
-    ∧ Spec.Blob.NoIntermediateOverflow 1 192204552 3338477 :=
-  ⟨⟨400, by decide +kernel⟩, ⟨400, by decide +kernel, by decide +kernel⟩⟩
+example : Spec.Blob.FakeExp 1 192204553 3338477 10079296854086811361005191 := ⟨400, cancun_spec_at⟩
 
-/-- the domain is exact: the debug profile returns a value *only* on that domain (it panics as soon
-as an intermediate value does not fit), and the value is then the EIP value -/
-theorem fake_exp_debug_ok_only_on_domain (fuel f n d r : Nat)
-    (h : fakeExponential false fuel f n d = some (.ok r)) :
-    d ≠ 0 ∧ Spec.Blob.FakeExp f n d r ∧ Spec.Blob.NoIntermediateOverflow f n d := by
-  obtain ⟨hd, hs, hf⟩ := debug_ok_imp_top fuel f n d r h
-  exact ⟨hd, ⟨fuel, hs⟩, ⟨fuel, by rw [hs]; rfl, hf⟩⟩
+/-- whenever the EIP value fits in 128 bits the function returns exactly it -/
+theorem fake_exp_exact (f n d r : Nat) (hf : f < U64) (hn : n < U64) (hd : d < U64) (hd0 : d ≠ 0)
+    (hr : Spec.Blob.FakeExp f n d r) (hfit : r < 2^128) :
+    ∃ fuel0, ∀ fuel, fuel0 ≤ fuel → fakeExponential fuel f n d = some (.ok r) := by
+  obtain ⟨fuel0, h⟩ := Proofs.Blob.fake_exp_eq f n d r hf hn hd hd0 hr
+  refine ⟨fuel0, fun fuel hle => ?_⟩
+  rw [h fuel hle]; unfold Spec.Blob.clamp128
+  rw [Nat.min_eq_left (by omega)]
 
-example : fakeExponential false 400 1 1000000 3338477 = some (.ok 1) := by decide +kernel
+example : (10079296854086811361005191 : Nat) < 2^128 := by decide
 
-/-- a zero denominator panics (`assert_ne!`) in both profiles -/
-theorem fake_exp_zero_denominator (wrap : Bool) (fuel f n : Nat) :
-    fakeExponential wrap fuel f n 0 = some .panic := by
+/-- when it does not fit the function returns `u128::MAX` — never a wrapped value -/
+theorem fake_exp_saturates (f n d r : Nat) (hf : f < U64) (hn : n < U64) (hd : d < U64) (hd0 : d ≠ 0)
+    (hr : Spec.Blob.FakeExp f n d r) (hbig : 2^128 ≤ r) :
+    ∃ fuel0, ∀ fuel, fuel0 ≤ fuel → fakeExponential fuel f n d = some (.ok (2^128 - 1)) := by
+  obtain ⟨fuel0, h⟩ := Proofs.Blob.fake_exp_eq f n d r hf hn hd hd0 hr
+  refine ⟨fuel0, fun fuel hle => ?_⟩
+  rw [h fuel hle]; unfold Spec.Blob.clamp128
+  rw [Nat.min_eq_right (by omega)]
+
+example : Spec.Blob.FakeExp 1 89 1 448904602005332587071412458193989150132 ∧
+    2^128 ≤ (448904602005332587071412458193989150132 : Nat) := ⟨⟨400, by decide +kernel⟩, by decide⟩
+
+/-- the property as written holds -/
+theorem full_statement_fake_exp : FullStatementFakeExp := by
+  intro f n d r hf hn hd hd0 hr hfit
+  obtain ⟨fuel0, h⟩ := fake_exp_exact f n d r hf hn hd hd0 hr hfit
+  exact ⟨fuel0, h fuel0 (Nat.le_refl _)⟩
+
+/-- with a non-zero denominator the function always returns a value: it never panics (no division
+by zero through a wrapped `denominator * i`) and its loop terminates -/
+theorem fake_exp_never_panics (f n d : Nat) (hf : f < U64) (hn : n < U64) (hd : d < U64) (hd0 : d ≠ 0) :
+    ∃ fuel v, fakeExponential fuel f n d = some (.ok v) ∧ v < 2^128 := by
+  obtain ⟨r, hr⟩ := fakeExp_total f n d
+  obtain ⟨fuel0, h⟩ := Proofs.Blob.fake_exp_eq f n d r hf hn hd hd0 hr
+  refine ⟨fuel0, _, h fuel0 (Nat.le_refl _), ?_⟩
+  unfold Spec.Blob.clamp128; omega
+
+/-- the answer does not depend on the fuel given to the model's loop -/
+theorem fake_exp_fuel_independent (a b f n d : Nat) (r r' : Res Nat)
+    (h : fakeExponential a f n d = some r) (h' : fakeExponential b f n d = some r') : r = r' :=
+  model_top_unique a b f n d r r' h h'
+
+example : fakeExponential 400 1 88 1 = some (.ok 165162653699637111792770913913821835905) := small_model_at
+
+/-- a zero denominator panics (`assert_ne!`) -/
+theorem fake_exp_zero_denominator (fuel f n : Nat) : fakeExponential fuel f n 0 = some .panic := by
   simp [fakeExponential]
 
-/-- the domain is downward closed in the numerator: below an overflow-free numerator the function is
-exact -/
-theorem fake_exp_eq_below (wrap : Bool) (fuel f n n' d : Nat) (hd : d ≠ 0) (hn : n ≤ n')
-    (hsome : (Spec.Blob.fakeExpFuel fuel f n' d).isSome = true)
-    (hfit : Spec.Blob.fitsFuel fuel f n' d = true) :
-    ∃ r, Spec.Blob.fakeExpFuel fuel f n d = some r ∧ r < 2^128 ∧ fakeExponential wrap fuel f n d = some (.ok r) :=
-  below_threshold wrap fuel f n n' d hd hn hsome hfit
+/-- `calc_blob_gasprice(excess, is_prague)` for **every** `u64` excess and both update fractions is the
+EIP value clamped to `u128` -/
+theorem blob_gasprice_eq (excess : Nat) (p : Bool) (r : Nat) (he : excess < U64)
+    (hr : Spec.Blob.FakeExp 1 excess (Spec.Blob.fraction p) r) :
+    ∃ fuel0, ∀ fuel, fuel0 ≤ fuel → calcBlobGasprice fuel excess p = some (.ok (min r (2^128 - 1))) := by
+  have hU := U64_val
+  cases p with
+  | false => exact Proofs.Blob.fake_exp_eq 1 excess 3338477 r (by omega) he (by omega) (by omega) hr
+  | true => exact Proofs.Blob.fake_exp_eq 1 excess 5007716 r (by omega) he (by omega) (by omega) hr
 
-example : (Spec.Blob.fakeExpFuel 400 1 87 1).isSome = true ∧ Spec.Blob.fitsFuel 400 1 87 1 = true :=
-  ⟨small_some, small_fits⟩
+example : Spec.Blob.FakeExp 1 284284039 (Spec.Blob.fraction true) 4513890120847598646169468 :=
+  ⟨400, prague_spec_at⟩
 
-/-- `calc_blob_gasprice(excess, false)` (Cancun fraction 3338477) is the EIP value for **every**
-excess blob gas below 192 204 553, in both profiles; the value is below 2^128 -/
-theorem blob_gasprice_cancun_eq (wrap : Bool) (excess : Nat) (h : excess < 192204553) :
-    ∃ r, Spec.Blob.blobGaspriceFuel 400 excess false = some r ∧ r < 2^128 ∧
-      calcBlobGasprice wrap 400 excess false = some (.ok r) :=
-  below_threshold wrap 400 1 excess (CANCUN_LIMIT - 1) CANCUN (by decide)
-    (by unfold CANCUN_LIMIT; omega) cancun_some cancun_fits
+/-- the Spec column printed by the driver (`Spec.fakeExpSat`, unbounded integers with an early exit)
+is the clamped EIP value -/
+theorem spec_column_eq (fuel f n d v r : Nat) (hd0 : d ≠ 0)
+    (h : Spec.Blob.fakeExpSat fuel f n d = some v) (hr : Spec.Blob.FakeExp f n d r) :
+    v = min r (2^128 - 1) :=
+  sat_eq_clamp fuel f n d v r hd0 h hr
 
-/-- `calc_blob_gasprice(excess, true)` (Prague fraction 5007716) is the EIP value for **every**
-excess blob gas below 284 284 039 -/
-theorem blob_gasprice_prague_eq (wrap : Bool) (excess : Nat) (h : excess < 284284039) :
-    ∃ r, Spec.Blob.blobGaspriceFuel 400 excess true = some r ∧ r < 2^128 ∧
-      calcBlobGasprice wrap 400 excess true = some (.ok r) :=
-  below_threshold wrap 400 1 excess (PRAGUE_LIMIT - 1) PRAGUE (by decide)
-    (by unfold PRAGUE_LIMIT; omega) prague_some prague_fits
+example : Spec.Blob.fakeExpSat 400 1 18446744073709551615 3338477 = some (2^128 - 1) := by decide +kernel
 
-/-! ## price: what happens just outside (finding, DESIGN section 9 item 7) -/
-
-/-- smallest failing excess for the Cancun fraction: at 192 204 553 the EIP value is
-10079296854086811361005191 (< 2^128) but the release build returns 5089730449835472321748656
-(a wrapped product) and the debug build panics -/
-theorem blob_gasprice_cancun_counterexample :
+/-- regression: the witnesses of the former finding (DESIGN section 9 item 7) now give the EIP value -/
+theorem fake_exp_regression :
     Spec.Blob.blobGaspriceFuel 400 192204553 false = some 10079296854086811361005191
-    ∧ 10079296854086811361005191 < 2^128
-    ∧ calcBlobGasprice true 400 192204553 false = some (.ok 5089730449835472321748656)
-    ∧ calcBlobGasprice false 400 192204553 false = some .panic :=
-  ⟨cancun_spec_at, by decide, cancun_release_at, cancun_debug_at⟩
-
-/-- smallest failing excess for the Prague fraction: 284 284 039 -/
-theorem blob_gasprice_prague_counterexample :
-    Spec.Blob.blobGaspriceFuel 400 284284039 true = some 4513890120847598646169468
-    ∧ 4513890120847598646169468 < 2^128
-    ∧ calcBlobGasprice true 400 284284039 true = some (.ok 2232503661301042500055690)
-    ∧ calcBlobGasprice false 400 284284039 true = some .panic :=
-  ⟨prague_spec_at, by decide, prague_release_at, prague_debug_at⟩
-
-/-- smallest numerator with factor = denominator = 1: `fake_exponential(1, 88, 1)`; exact for every
-numerator below 88 -/
-theorem fake_exp_small_counterexample :
-    Spec.Blob.fakeExpFuel 400 1 88 1 = some 165162653699637111792770913913821835905
-    ∧ 165162653699637111792770913913821835905 < 2^128
-    ∧ fakeExponential true 400 1 88 1 = some (.ok 34455485338856581042470029560057452133)
-    ∧ fakeExponential false 400 1 88 1 = some .panic
-    ∧ ∀ n, n < 88 → ∃ r, Spec.Blob.fakeExpFuel 400 1 n 1 = some r ∧ fakeExponential true 400 1 n 1 = some (.ok r) := by
-  refine ⟨by decide +kernel, by decide, by decide +kernel, by decide +kernel, fun n hn => ?_⟩
-  obtain ⟨r, h1, _, h2⟩ := below_threshold true 400 1 n 87 1 (by decide) (by omega) small_some small_fits
-  exact ⟨r, h1, h2⟩
-
-/-- the property as written does not hold for the price function -/
-theorem full_statement_fake_exp_false : ¬ FullStatementFakeExp := by
-  intro h
-  obtain ⟨fuel, hf⟩ := h 1 192204553 3338477 10079296854086811361005191
-    (by rw [U64_val]; decide) (by rw [U64_val]; decide) (by rw [U64_val]; decide) (by decide)
-    ⟨400, cancun_spec_at⟩ (by decide)
-  have := model_top_unique true fuel 400 1 192204553 3338477 _ _ hf cancun_release_at
-  exact absurd this (by decide)
+    ∧ calcBlobGasprice 400 192204553 false = some (.ok 10079296854086811361005191)
+    ∧ Spec.Blob.blobGaspriceFuel 400 284284039 true = some 4513890120847598646169468
+    ∧ calcBlobGasprice 400 284284039 true = some (.ok 4513890120847598646169468)
+    ∧ Spec.Blob.fakeExpFuel 400 1 88 1 = some 165162653699637111792770913913821835905
+    ∧ fakeExponential 400 1 88 1 = some (.ok 165162653699637111792770913913821835905)
+    ∧ calcBlobGasprice 400 18446744073709551615 false = some (.ok (2^128 - 1)) :=
+  ⟨cancun_spec_at, cancun_model_at, prague_spec_at, prague_model_at, small_spec_at, small_model_at, max_model_at⟩
 
 /-! ## excess blob gas -/
 
-/-- `calc_excess_blob_gas = max(0, excess + used − target)` exactly when `excess + used < 2^64`
-(release profile); in particular whenever the sum fits -/
-theorem excess_eq_iff (a b t : Nat) (ha : a < U64) (hb : b < U64) (ht : t < U64) :
-    (∃ v, calcExcessBlobGas true a b t = .ok v ∧ (v : Int) = Spec.Blob.excessBlobGas a b t) ↔ a + b < U64 :=
-  Proofs.Blob.excess_eq_iff a b t ha hb ht
+/-- for **all** `u64` arguments: `calc_excess_blob_gas = min(max(0, excess + used − target), 2^64 − 1)` -/
+theorem excess_eq (a b t : Nat) (ha : a < U64) (hb : b < U64) (ht : t < U64) :
+    (calcExcessBlobGas a b t : Int) = min (max 0 ((a : Int) + b - t)) (2^64 - 1) :=
+  Proofs.Blob.excess_eq a b t ha hb ht
 
-theorem excess_eq_partial (a b t : Nat) (ha : a < U64) (hb : b < U64) (ht : t < U64) (h : a + b < U64) :
-    ∃ v, calcExcessBlobGas true a b t = .ok v ∧ v < U64 ∧ (v : Int) = Spec.Blob.excessBlobGas a b t := by
-  obtain ⟨v, h1, h2⟩ := (Proofs.Blob.excess_eq_iff a b t ha hb ht).mpr h
-  refine ⟨v, h1, ?_, h2⟩
-  unfold calcExcessBlobGas add64 U64ops.saturatingSub at h1
-  simp only [h, if_true, Res.ok.injEq] at h1
+/-- in particular it is exactly `max(0, excess + used − target)` whenever that fits in a `u64` -/
+theorem excess_exact (a b t : Nat) (ha : a < U64) (hb : b < U64) (ht : t < U64)
+    (hfit : (a : Int) + b - t < 2^64) :
+    (calcExcessBlobGas a b t : Int) = max 0 ((a : Int) + b - t) := by
+  rw [Proofs.Blob.excess_eq a b t ha hb ht]
+  unfold Spec.Blob.excessBlobGasClamped Spec.Blob.excessBlobGas
+  have h64 : ((2:Int)^64) = 18446744073709551616 := by decide
+  rw [h64] at hfit ⊢
   omega
 
-example : (18446744073709551615 : Nat) < U64 ∧ 18446744073709551615 + 0 < U64 := by
-  rw [U64_val]; decide
+example : ((18446744073709551615 : Nat) : Int) + (1 : Nat) - (1 : Nat) < 2^64 := by decide
 
-/-- debug profile: the value when the sum fits, a panic otherwise -/
-theorem excess_debug (a b t : Nat) :
-    calcExcessBlobGas false a b t = if a + b < U64 then .ok (a + b - t) else .panic :=
-  Proofs.Blob.excess_debug a b t
+theorem full_statement_excess : FullStatementExcess :=
+  fun a b t ha hb ht => Proofs.Blob.excess_eq a b t ha hb ht
 
-/-- `calc_excess_blob_gas(2^64−1, 1, 1)`: the true value 2^64−1 fits in a `u64`, the release build
-returns 0, the debug build panics -/
-theorem excess_counterexample :
-    Spec.Blob.excessBlobGas 18446744073709551615 1 1 = 18446744073709551615
-    ∧ calcExcessBlobGas true 18446744073709551615 1 1 = .ok 0
-    ∧ calcExcessBlobGas false 18446744073709551615 1 1 = .panic := by
-  refine ⟨by decide, by decide +kernel, by decide +kernel⟩
+/-- the returned value is a `u64` -/
+theorem excess_is_u64 (a b t : Nat) : calcExcessBlobGas a b t < U64 := excess_lt a b t
 
-theorem full_statement_excess_false : ¬ FullStatementExcess := by
-  intro h
-  have := (Proofs.Blob.excess_eq_iff 18446744073709551615 1 1 (by rw [U64_val]; decide)
-    (by rw [U64_val]; decide) (by rw [U64_val]; decide)).mp
-    (h _ _ _ (by rw [U64_val]; decide) (by rw [U64_val]; decide) (by rw [U64_val]; decide))
-  rw [U64_val] at this
-  omega
+/-- regression: `calc_excess_blob_gas(2^64−1, 1, 1) = 2^64−1` (was 0), and a sum that does not fit
+saturates -/
+theorem excess_regression :
+    calcExcessBlobGas 18446744073709551615 1 1 = 18446744073709551615
+    ∧ calcExcessBlobGas 18446744073709551615 18446744073709551615 0 = 18446744073709551615 := by
+  refine ⟨by decide +kernel, by decide +kernel⟩
 
 /-! ## `BlobExcessGasAndPrice` -/
 
 /-- `BlobExcessGasAndPrice::new` stores the excess it was given and the price of `calc_blob_gasprice` -/
-theorem blob_new_eq (wrap : Bool) (fuel e : Nat) (p : Bool) (r : Nat)
-    (h : calcBlobGasprice wrap fuel e p = some (.ok r)) :
-    BlobExcessGasAndPrice.new wrap fuel e p = some (.ok ⟨e, r⟩) := by
+theorem blob_new_eq (fuel e : Nat) (p : Bool) (r : Nat)
+    (h : calcBlobGasprice fuel e p = some (.ok r)) :
+    BlobExcessGasAndPrice.new fuel e p = some (.ok ⟨e, r⟩) := by
   simp [BlobExcessGasAndPrice.new, h]
 
-example : calcBlobGasprice true 400 0 true = some (.ok 1) := by decide +kernel
+example : calcBlobGasprice 400 0 true = some (.ok 1) := by decide +kernel
 
 /-- `from_parent_and_target` composes the two functions -/
-theorem blob_from_parent_eq (wrap : Bool) (fuel a b t e : Nat) (p : Bool)
-    (h : calcExcessBlobGas wrap a b t = .ok e) :
-    BlobExcessGasAndPrice.fromParentAndTarget wrap fuel a b t p = BlobExcessGasAndPrice.new wrap fuel e p := by
-  simp [BlobExcessGasAndPrice.fromParentAndTarget, h]
-
-example : calcExcessBlobGas true 393216 786432 393216 = .ok 786432 := by decide +kernel
+theorem blob_from_parent_eq (fuel a b t : Nat) (p : Bool) :
+    BlobExcessGasAndPrice.fromParentAndTarget fuel a b t p
+      = BlobExcessGasAndPrice.new fuel (calcExcessBlobGas a b t) p := rfl
 
 end Revm.Props.C32
